@@ -223,7 +223,7 @@ def rConcatL (sc : List (List String)) (pl : List String) (a : E2) : Option E2 :
   match asPar a with
   | some (p, .concat l r) =>
     match schema2 sc l with
-    | some cl => if pushOK p.cols cl pl then some (p.app (.concat (.proj pl l) r)) else none
+    | some cl => if pushOK p.cols cl pl && cl != pl then some (p.app (.concat (.proj pl l) r)) else none
     | none => none
   | _ => none
 
@@ -231,7 +231,7 @@ def rConcatR (sc : List (List String)) (pr : List String) (a : E2) : Option E2 :
   match asPar a with
   | some (p, .concat l r) =>
     match schema2 sc r with
-    | some cr => if pushOK p.cols cr pr then some (p.app (.concat l (.proj pr r))) else none
+    | some cr => if pushOK p.cols cr pr && cr != pr then some (p.app (.concat l (.proj pr r))) else none
     | none => none
   | _ => none
 
@@ -239,6 +239,13 @@ def rConcatR (sc : List (List String)) (pr : List String) (a : E2) : Option E2 :
 def rConcatDrop (sc : List (List String)) (a : E2) : Option E2 :=
   match a with
   | .proj cs (.concat l r) => if schema2 sc (.concat l r) = some cs then some (.concat l r) else none
+  | _ => none
+
+/-- `Projection._simplify_down` on a merge: `merge(l, r)[cs] ⟶ merge(l, r)` when `cs` is exactly its column list -/
+def rMergeDrop (sc : List (List String)) (a : E2) : Option E2 :=
+  match a with
+  | .proj cs (.merge how on l r) =>
+    if schema2 sc (.merge how on l r) = some cs && cs.Nodup then some (.merge how on l r) else none
   | _ => none
 
 def lookO (og : List (String × Bool × String)) (n : String) : Option (Bool × String) := (og.find? (·.1 == n)).map (·.2)
@@ -256,7 +263,7 @@ def rMergeL (sc : List (List String)) (pl : List String) (a : E2) : Option E2 :=
   match asPar a with
   | some (p, .merge how on l r) =>
     match schema2 sc l, schema2 sc r with
-    | some cl, some cr => if mergeLOK on p.cols cl cr pl then some (p.app (.merge how on (.proj pl l) r)) else none
+    | some cl, some cr => if mergeLOK on p.cols cl cr pl && cl != pl then some (p.app (.merge how on (.proj pl l) r)) else none
     | _, _ => none
   | _ => none
 
@@ -264,7 +271,7 @@ def rMergeR (sc : List (List String)) (pr : List String) (a : E2) : Option E2 :=
   match asPar a with
   | some (p, .merge how on l r) =>
     match schema2 sc l, schema2 sc r with
-    | some cl, some cr => if mergeROK on p.cols cl cr pr then some (p.app (.merge how on l (.proj pr r))) else none
+    | some cl, some cr => if mergeROK on p.cols cl cr pr && cr != pr then some (p.app (.merge how on l (.proj pr r))) else none
     | _, _ => none
   | _ => none
 
@@ -363,6 +370,20 @@ def oldOK (sc : List (List String)) (a b : E2) : Bool :=
 
 /-! ## the step checker -/
 
+/-- the two term-growing `Len` candidates are only tried when `b` has that shape (keeps the search finite) -/
+def keepCand (b a' : E2) : Bool :=
+  match a' with
+  | .bin .add (.lit 0) _ =>
+    (match b with
+     | .bin .add (.lit 0) _ => true
+     | _ => false)
+  | .len (.index _) =>
+    (match b with
+     | .len (.index _) => true
+     | .len (.filter _ _) => true
+     | _ => false)
+  | _ => true
+
 /-- every schema instance at the root of `a`, directed by `b` (the side projections are read off `b`'s schema) -/
 def cands (sc : List (List String)) (sl : List Nat) (a b : E2) : List E2 :=
   let sideCols : List (List String) :=
@@ -374,7 +395,7 @@ def cands (sc : List (List String)) (sl : List Nat) (a b : E2) : List E2 :=
     | _ => []
   (sideCols.filterMap (fun p => rConcatL sc p a)) ++ (sideCols.filterMap (fun p => rConcatR sc p a)) ++
   (sideCols.filterMap (fun p => rMergeL sc p a)) ++ (sideCols.filterMap (fun p => rMergeR sc p a)) ++
-  (rConcatDrop sc a).toList ++ lenCands sl a
+  (rConcatDrop sc a).toList ++ (rMergeDrop sc a).toList ++ (lenCands sl a).filter (keepCand b)
 
 /-- same constructor, same parameters, children related by `chk` -/
 def congr (chk : E2 → E2 → Bool) : E2 → E2 → Bool
